@@ -595,18 +595,23 @@ def canon_model(rec):
             'SRC': d['SRC'], 'GZ': int(d['GZ'])}
 
 
+# Sources of the current body whose byte count the model knows as a number: only texts the *harness* supplies (handler
+# values, custom error pages, the custom error_response, the marshalled XML-RPC result) and the empty body.  Every text
+# the framework generates (error template, redirect note, bare_error, multipart/byteranges boundaries and part headers,
+# XML-RPC faults, gzip framing) is a parameter: for those only the relations Content-Length = delivered bytes and
+# delivered = 0 are compared, so rewording them cannot trip the comparison.
+EXACT_SOURCES = ('handler', 'custom', 'none')
+
+
 def compare(impl, model, tb=False):
-    """List of observables on which the two sides differ (after canonicalisation).  tb = tracebacks are shown:
-    the bare error then carries one, and its length is not known to the model."""
+    """List of observables on which the two sides differ (after canonicalisation)."""
     diff = []
-    if tb and model['SRC'] == 'bare':
-        model = dict(model, SRC='tmpl')
     for k in ('S', 'E', 'ST', 'CA', 'CE', 'CT'):
         if impl[k] != model[k]:
             diff.append(k)
     if (impl['CL'] == 'N') != (model['CL'] == 'N'):
         diff.append('CL-presence')
-    elif model['SRC'] in ('handler', 'custom', 'bare', 'none', 'multipart') and not model['GZ']:
+    elif model['SRC'] in EXACT_SOURCES and not model['GZ']:
         if impl['CL'] != model['CL']:
             diff.append('CL')
         if impl['D'] != model['D']:
